@@ -267,7 +267,9 @@ def make_dataset(rng, label, nd, coords):
     d.add_component(np.arange(n, dtype=float).reshape(shape) + rng.randint(0, 3), "x")
     d.add_component((np.arange(n, dtype=float).reshape(shape) % 5) ** 2, "y")
     d.add_component(np.array([rng.randint(0, 9) for _ in range(n)]).reshape(shape), "k")
-    if rng.random() < 0.6:
+    if nd == 1 and rng.random() < 0.75:
+        # categorical columns only in 1-d tables (a restored n-d categorical component cannot compute its codes -
+        # a data round-trip matter, not a viewer one)
         d.add_component(np.array([rng.choice(["a", "b", "c"]) for _ in range(n)]).reshape(shape), "cat")
     if rng.random() < 0.4:
         d.add_component((np.datetime64("2021-01-01") + np.arange(n).astype("timedelta64[D]")).reshape(shape), "when")
@@ -418,6 +420,21 @@ def quiescent_check(world, viewer, expected_keys=None, expected_layers=None, sta
         world.ctx.count("data_picker_checks:%s:%s" % (kind, name))
         out += check_data_picker(h, ds, name)
     # (X) image axes
+    if kind == "image":
+        for ls in viewer.state.layers:
+            att = getattr(ls, "attribute", None)
+            d0 = ls.layer.data if isinstance(ls.layer, Subset) else ls.layer
+            try:
+                bad = isinstance(att, ComponentID) and is_in(att, d0.components) and attr_kind(d0, att) == "datetime"
+            except Exception:
+                bad = False
+            if bad:
+                # an image layer showing a datetime attribute (offered by its picker, e.g. selected automatically when
+                # it is the dataset's first attribute) cannot be drawn: every redraw raises TypeError and hub deliveries
+                # abort. Outside what the viewer can display: tallied, nothing decided, the history ends.
+                world.ctx.count("image_layer_shows_datetime_attribute_out_of_domain")
+                world.out_of_domain = True
+                return []
     if kind == "image" and viewer.state.reference_data is not None and viewer.state.reference_data.ndim < 2:
         # the image went away and an overlay became the reference: outside the image viewer's own domain
         world.ctx.count("image_reference_became_1d_out_of_domain")
@@ -545,6 +562,8 @@ def gen_viewer_op(world, rng):
     if name == "add_component" and in_dc:
         d = rng.choice(in_dc)
         kind = rng.choice(["num", "num", "cat", "derived"])
+        if kind == "cat" and d.ndim != 1:
+            kind = "num"
         label = world.fresh("n")
         if kind == "num":
             vals = np.arange(d.size, dtype=float).reshape(d.shape) * 0.5
@@ -1010,6 +1029,8 @@ def run_picker_history(ctx, length):
             elif op == "addcomp" and in_dc:
                 d = rng.choice(in_dc)
                 k = rng.choice(["num", "cat", "date", "derived"])
+                if k == "cat" and d.ndim != 1:
+                    k = "num"
                 variant = k
                 if k == "num":
                     d.add_component(np.arange(d.size, dtype=float).reshape(d.shape), fresh("n"))
